@@ -65,6 +65,8 @@ static void scenario() {
         vf_outcome("size=%zu ", sz); for (auto& r : rs) vf_outcome("%c[%zu,%zu) ", r.op, r.lo, r.hi);
     } else {   // after a throw: accesses either work or throw, never touch unallocated memory; vector destructible
         int ok = 0, bad = 0; for (size_t i = 0; i < sz; i++) { try { const El& e = v.at(i); if (!in_region(&e)) vf_fail("at(%zu) returned memory that is not allocated", i); if ((*live)[&e] == 1) ok++; else bad++; } catch (std::exception&) { bad++; } }
+        /* at() beyond size() must throw; the claimed size can be larger than size() after a failed growth, so the indices up to 40 are tried as well */
+        for (size_t i = sz; i < 40; i++) { try { const El& e = v.at(i); if (!in_region(&e)) vf_fail("at(%zu) (size() is %zu) returned memory that is not allocated", i, sz); } catch (std::exception&) {} }
         try { v.push_back(El(99)); } catch (std::exception&) {} catch (Thrown&) {}
         vf_outcome("threw=%d size=%zu ok=%d broken=%d", nthrown, sz, ok, bad);
     }
